@@ -362,11 +362,23 @@ func (p *pointG2) UnmarshalBinary(buf []byte) error {
 
 func (p *pointG2) UnmarshalFrom(r io.Reader) (int, error) {
 	buf := make([]byte, p.MarshalSize())
-	n, err := io.ReadFull(r, buf)
+	// MarshalBinary encodes the point at infinity as the single byte 0x00 and
+	// every other point as 0x01 followed by four coordinates: read the tag first.
+	n, err := io.ReadFull(r, buf[:1])
 	if err != nil {
 		return n, err
 	}
-	return n, p.UnmarshalBinary(buf)
+	if buf[0] == 0x00 {
+		return n, p.UnmarshalBinary(buf[:1])
+	}
+	m, err := io.ReadFull(r, buf[1:])
+	if err != nil {
+		if err == io.EOF {
+			err = io.ErrUnexpectedEOF
+		}
+		return n + m, err
+	}
+	return n + m, p.UnmarshalBinary(buf)
 }
 
 func (p *pointG2) MarshalSize() int {
